@@ -2146,11 +2146,9 @@ pick:
 		_dispatch_stream_cleanup_operations(stream, op->channel);
 		break;
 	case DISPATCH_OP_FD_ERR:
-		_dispatch_fd_entry_retain(fd_entry);
-		dispatch_async(fd_entry->barrier_queue, ^{
-			_dispatch_fd_entry_cleanup_operations(fd_entry, NULL);
-			_dispatch_fd_entry_release(fd_entry);
-		});
+		// Not via the barrier queue: a pending dispatch_io_barrier() keeps it
+		// suspended until these very operations have completed
+		_dispatch_fd_entry_cleanup_operations(fd_entry, NULL);
 		break;
 	default:
 		break;
